@@ -52,17 +52,20 @@ Vocab ==
     [k |-> "prune"], [k |-> "quit"], [k |-> "print", delim |-> 0],
     [k |-> "printf", fmt |-> <<37, 121, 37, 109, 58, 37, 80, 92, 110>>] }            \* -printf '%y%m:%P\n'
 
-VARIABLES words, mode, depth, picked, phase
-vars == <<words, mode, depth, picked, phase>>
-Init == words = <<>> /\ mode = "P" /\ depth = FALSE /\ picked = FALSE /\ phase = 0
-Next == \/ /\ phase = 0 /\ phase' = 1 /\ words' \in SeqsUpTo(Vocab, LW - 1) /\ UNCHANGED <<mode, depth, picked>>
-        \/ /\ phase = 1 /\ phase' = 2 /\ picked' = TRUE /\ mode' \in {"P", "L"} /\ depth' \in BOOLEAN
+VARIABLES words, mode, depth, picked, phase, rsel
+vars == <<words, mode, depth, picked, phase, rsel>>
+Init == words = <<>> /\ mode = "P" /\ depth = FALSE /\ picked = FALSE /\ phase = 0 /\ rsel = 1
+Next == \/ /\ phase = 0 /\ phase' = 1 /\ words' \in SeqsUpTo(Vocab, LW - 1) /\ rsel' \in (IF Len(words') = LW - 1 THEN {1} ELSE {1, 2}) /\ UNCHANGED <<mode, depth, picked>>
+        \/ /\ phase = 1 /\ phase' = 2 /\ picked' = TRUE /\ mode' \in {"P", "L"} /\ depth' \in BOOLEAN /\ UNCHANGED rsel
            /\ \E w \in Vocab \cup {Op("end")} : words' = IF w = Op("end") THEN words ELSE Append(words, w)
 Spec == Init /\ [][Next]_vars
 
 cfg == [mode |-> mode, min |-> 0, max |-> NoMax, depth |-> depth, sorted |-> TRUE, prune |-> {},
         syn |-> "emacs", now |-> NOW, users |-> {0}, groups |-> {0}]
-roots == << [spell |-> <<100>>, node |-> 1] >>
+\* the starting points: d alone, or d/s, a name that does not exist, d/t
+R1 == << [spell |-> <<100>>, node |-> 1] >>
+R2 == << [spell |-> <<100, 47, 115>>, node |-> 5], [spell |-> <<110, 111, 112, 101>>, node |-> 0], [spell |-> <<100, 47, 116>>, node |-> 7] >>
+roots == IF rsel = 1 THEN R1 ELSE R2
 ok == SemParse(words).ok
 res == FindResult(words, TREE, cfg, roots)
 out == res.outs[0]
@@ -71,11 +74,11 @@ U == WalkRoots(TREE, ecfg, roots).ents
 
 \* without -prune and -quit the composition is the reference walk with the expression applied to every entry
 NoCutLaw ==
-  (picked /\ ok /\ ~\E i \in DOMAIN words : words[i].k \in {"prune", "quit"}) =>
+  (picked /\ ok /\ rsel = 1 /\ ~\E i \in DOMAIN words : words[i].k \in {"prune", "quit"}) =>
      out = Flatten([k \in DOMAIN U |-> EntryEval(words, TREE, ecfg, <<100>>, U[k]).out])
 \* an expression without action prints exactly the paths on which it is true, one per line
 DefaultPrintLaw ==
-  (picked /\ ok /\ words # <<>> /\ ~SemHasAction(words) /\ ~\E i \in DOMAIN words : words[i].k \in {"prune", "quit"}) =>
+  (picked /\ ok /\ rsel = 1 /\ words # <<>> /\ ~SemHasAction(words) /\ ~\E i \in DOMAIN words : words[i].k \in {"prune", "quit"}) =>
      out = Flatten([k \in DOMAIN U |-> IF SEval(SemParse(words).ast, words, TREE, ecfg, <<100>>, U[k]).v THEN U[k].path \o <<10>> ELSE <<>>])
 \* an action that writes nothing still counts: with -exec somewhere - nested, negated or never reached - and no
 \* output action, nothing at all is printed
@@ -108,7 +111,13 @@ FileLaw ==
                                          IF IsOutput(words[i]) THEN [k |-> "const", v |-> TRUE] ELSE words[i]]
      IN (\E i \in DOMAIN words : IsAction(words[i]) /\ ChanOf(words[i]) = 1) => res.outs[1] = FindOutput(std, TREE, cfg, roots)
 \* without a missing starting point or a loop nothing is diagnosed
-NoErrLaw == picked /\ ok => res.errs = 0
+NoErrLaw == picked /\ ok /\ rsel = 1 => res.errs = 0
+\* starting points are independent: unless -quit is evaluated, the run is the runs on each of them one after the
+\* other, and the one that does not exist is diagnosed (and only that)
+RootsLaw ==
+  (picked /\ ok /\ rsel = 2 /\ ~\E i \in DOMAIN words : words[i].k = "quit") =>
+     /\ \A c \in Chans : res.outs[c] = FindResult(words, TREE, cfg, <<R2[1]>>).outs[c] \o FindResult(words, TREE, cfg, <<R2[3]>>).outs[c]
+     /\ res.errs = 1
 
 EmitVectors ==
   (EMIT /\ picked /\ ok /\ SemDom(words, TREE, cfg, roots)) =>
@@ -116,5 +125,5 @@ EmitVectors ==
                                      cfg |-> [mode |-> mode, min |-> 0, max |-> NoMax, depth |-> depth, sorted |-> TRUE, prune |-> <<>>,
                                               syn |-> "emacs", nowoff |-> <<0, NOW[2]>>],
                                      words |-> VecWords],
-                             exp |-> [out |-> out, files |-> [c \in 1..2 |-> [there |-> c \in FilesNamed(words), b |-> res.outs[c]]]]])>>)
+                             exp |-> [out |-> out, errs |-> res.errs, files |-> [c \in 1..2 |-> [there |-> c \in FilesNamed(words), b |-> res.outs[c]]]]])>>)
 =============================================================================
